@@ -19,10 +19,31 @@ def lookups(b):
     return out
 
 
-def expiry_checked_lookups(b):
-    """set of lookup blocks whose result flows into an is_expired() receiver"""
+def expiry_checked_lookups(b, ctx=None):
+    """set of lookup blocks whose result flows into an is_expired() receiver -- directly, or as the
+    subject of an Option/iterator adaptor whose closure calls is_expired() on its argument
+    (`data.get(k).map_or(false, |v| !v.is_expired())`, `.filter(|v| !v.is_expired())`)"""
     ok = set()
     stop = re.compile(SHARD_MAP)
+    if ctx is not None:
+        for i, t in b.calls():
+            if not t.get("clos") or not t["a"] or op_is_const(t["a"][0]):
+                continue
+            checks = False
+            for c in t["clos"]:
+                cb = ctx.prog.bodies.get(c)
+                if cb is None:
+                    continue
+                for j, tj in cb.calls():
+                    if IS_EXPIRED.match(callee(tj)) and tj["a"] and not op_is_const(tj["a"][0]):
+                        Pc = prov.operand_origins(cb, tj["a"][0])
+                        if any(r[0] == "param" and r[1] >= 2 for r in Pc.roots):
+                            checks = True
+            if checks:
+                P = prov.operand_origins(b, t["a"][0], stop_calls=stop)
+                for r in P.roots:
+                    if r[0] == "call" and LOOKUP.search(r[1]):
+                        ok.add(r[2])
     for i, t in b.calls():
         if not IS_EXPIRED.match(callee(t)):
             continue
@@ -44,7 +65,7 @@ def x1_compliant_methods(ctx):
             # the emptied key) is not a lookup of its own
             prim = [i for i, m in lk0 if m not in ("remove", "remove_entry", "len", "is_empty") ]
             lk = [(i, m) for i, m in lk0 if not (m in ("remove", "remove_entry") and any(cfg.dominates(b, j, i) and j != i for j in prim))]
-            ok = expiry_checked_lookups(b)
+            ok = expiry_checked_lookups(b, ctx)
             res[fn] = (lk, ok)
         return res
     return ctx.memo("x1", compute)
